@@ -169,3 +169,7 @@ func Serve(h http.Handler, rw http.ResponseWriter, req *http.Request) {
 		h.ServeHTTP(rw, req)
 	}
 }
+
+// NewSchemas stands in for the REST packages' NewSchema (reflection over the resource
+// types; listing only).
+func NewSchemas() *client.Schemas { return &client.Schemas{} }
